@@ -1,5 +1,6 @@
 CONSTANTS MaxOps = 3
           ResyncOnChange = TRUE
+          DocCacheByText = FALSE
           LintMemo = FALSE
 INIT JInit
 NEXT JNext
